@@ -29,6 +29,7 @@ type FuncResult struct {
 	HasContract bool
 	NPost       int
 	AllObls     []*Obligation
+	Degraded    []string // loop clauses that no longer resolve (structural change): failed obligations need replay confirmation
 	OblAssumes  map[int]bool // indexes of asserts that merely assume an obligation after it was recorded
 }
 
@@ -144,6 +145,7 @@ func (e *Engine) VerifyFunc(fn *ssa.Function, spec *FuncSpec, lockMode bool) (re
 		res.UsedSpecs = sortedKeys(fx.usedSpec)
 		res.Trusted = sortedKeys(fx.trusted)
 		res.Unknown = fx.unknown
+		res.Degraded = fx.degraded
 		res.Notes = fx.notes
 		res.Decls = e.Prelude() + fx.ctx.Script("") + fx.relevantAxioms()
 		res.Asserts = fx.ctx.asserts
